@@ -168,7 +168,7 @@ func goodHandler(r *rand.Rand, ht interface{}) interface{} {
 func badHandler(r *rand.Rand, ht interface{}) interface{} {
 	switch ht.(type) {
 	case *ifaceA:
-		return pick[interface{}](r, &implB{1}, implA{2}, "not a handler", 42, struct{}{}, &wrongSigA{}, &wrongSigAB{}, &implB2.H{N: 1}, &implB2.H{N: 2})
+		return pick[interface{}](r, &implB{1}, implA{2}, "not a handler", 42, struct{}{}, &wrongSigA{}, &wrongSigAB{}, &implB2.H{N: 1}, &implB2.H{N: 2}, nil, nil)
 	case *ifaceB:
 		return pick[interface{}](r, &implA{1}, implB{2}, valImplA{3}, &wrongSigAB{}, &implA2.H{N: 1}, &implA2.H{N: 2})
 	default:
@@ -432,6 +432,16 @@ func c15History(e *core.Env, i int, r *rand.Rand, tnameOut *string, traceOut *[]
 				}
 			}
 		}
+		// every method of every accepted registration is dispatched by the HTTP server (whatever the handler
+		// then answers, it is not "404, no such method")
+		if hsrv != nil {
+			for nme, w := range model {
+				if m := unservedMethod(hsrv, hbase, w.desc); m != "" {
+					fail("registered-but-not-served", "the registration of "+nme+" was accepted, yet the server answers 404 for its method "+m)
+					return
+				}
+			}
+		}
 		// final comparison
 		got := infoSource(reg, hm).GetServiceInfo()
 		if d := diffInfo(got, ref.GetServiceInfo()); d != "" {
@@ -508,6 +518,29 @@ func servedMethod(srv *httpgrpc.Server, base string, refused, accepted *grpc.Ser
 	}
 	for _, m := range refused.Streams {
 		if !have[m.StreamName] && probe(m.StreamName, httpgrpc.StreamRpcContentType_V1) {
+			return m.StreamName
+		}
+	}
+	return ""
+}
+
+// unservedMethod asks the HTTP server for every method of an accepted description and returns the first that is
+// answered 404.
+func unservedMethod(srv *httpgrpc.Server, base string, d *grpc.ServiceDesc) string {
+	probe := func(method, ct string) bool {
+		req := httptest.NewRequest("POST", path.Join(base, d.ServiceName, method), strings.NewReader(""))
+		req.Header.Set("Content-Type", ct)
+		rec := httptest.NewRecorder()
+		guard(func() { srv.ServeHTTP(rec, req) })
+		return rec.Code == 404
+	}
+	for _, m := range d.Methods {
+		if probe(m.MethodName, httpgrpc.UnaryRpcContentType_V1) {
+			return m.MethodName
+		}
+	}
+	for _, m := range d.Streams {
+		if probe(m.StreamName, httpgrpc.StreamRpcContentType_V1) {
 			return m.StreamName
 		}
 	}
